@@ -603,7 +603,15 @@ def analyze(ctx, want):
     for p in ret_paths(paths):
         g = p.calls(r"HashMap::<.*>::get::")
         ins = p.calls(r"HashMap::<.*>::insert$")
-        other = [e for e in p.events if e[0] == "call" and re.search(r"HashMap::<.*>::(remove|clear|get_mut|entry|retain|drain|iter_mut|values_mut|extend)", e[2])]
+        # entry(key).or_insert(value) on the miss path is the same insertion (the key is absent there)
+        ents_ = p.calls(r"HashMap::<.*>::entry$")
+        for oi_ in p.calls(r"hash_map::Entry::<.*>::or_insert$"):
+            en_ = [e for e in ents_ if e[4] == oi_[3][0]]
+            if en_:
+                # shaped like an insert call: (map, key, value)
+                ins = ins + [("call", oi_[1], "HashMap::insert(via entry)", (en_[0][3][0], en_[0][3][1], oi_[3][1]), oi_[4], oi_[5], oi_[6])]
+        used_entries = [e for e in ents_ if any(oi_[3][0] == e[4] for oi_ in p.calls(r"hash_map::Entry::<.*>::or_insert$"))]
+        other = [e for e in p.events if e[0] == "call" and re.search(r"HashMap::<.*>::(remove|clear|get_mut|entry|retain|drain|iter_mut|values_mut|extend)|Entry::<.*>::(and_modify|or_default|or_insert_with|insert_entry)|OccupiedEntry::<.*>::(insert|get_mut|into_mut|remove)", e[2]) and e not in used_entries]
         ob("C13.d", "entries-never-mutated", not other, "map operations besides get/insert: %s" % [M.short_name(e[2]) for e in other], sg.loc())
         # the lookups of the path (get / contains_key); the first one decides hit or miss
         look = [e for e in p.events if e[0] == "call" and re.search(r"HashMap::<.*>::(get|contains_key)::", e[2])]
@@ -704,7 +712,7 @@ def analyze(ctx, want):
     ex, paths = run_fn(bu, F, BaseModel())
     n = 0
     for p in ret_paths(paths):
-        c = [e for e in p.events if e[0] == "call" and re.search(r"TryInto<internal::scanner_impl::ScannerImpl>>::try_into$", e[2])]
+        c = [e for e in p.events if e[0] == "call" and re.search(r"TryInto<internal::scanner_impl::ScannerImpl>>::try_into$|ScannerImpl as std::convert::TryFrom<std::vec::Vec<scanner_mode::ScannerMode>>>::try_from$", e[2])]
         ok = len(c) == 1 and c[0][3][0] == ("field", ("sym", "self"), "scanner_modes")
         n += 1
         ob("C13.f", "build_uncached-compiles-own-modes", ok, "try_into(%s)" % (S.vstr(c[0][3][0]) if c else None), bu.loc())
